@@ -1,5 +1,6 @@
 """Implementation side of the correspondence: thin wrappers over /repo's public API (no source hooks)."""
 import copy
+import os
 import re
 
 from . import coqterm as ct
@@ -16,18 +17,38 @@ def pseudo_classes():
     return {n: getattr(dt, n) for n in PSEUDO_ORDER}
 
 
-DEFAULT_REPLACES = (("IntString", "FloatString"),)      # what string_serializable.py registers (pinned by Gen/StrReg.v)
+_LIVE_REPLACES = None
+
+
+def live_replaces():
+    """The replace pairs the package registers NOW: the decorators of string_serializable.py plus register_datetime_classes on
+    a fresh registry.  Read in a fresh process (other calls of this process may have mutated the default registry), once."""
+    global _LIVE_REPLACES
+    if _LIVE_REPLACES is None:
+        import json
+        import subprocess
+        from . import common
+        code = ("import json\n"
+                "from json_to_models.dynamic_typing import StringSerializableRegistry, register_datetime_classes\n"
+                "from json_to_models.dynamic_typing.string_serializable import registry\n"
+                "r2 = StringSerializableRegistry(); register_datetime_classes(r2)\n"
+                "print(json.dumps(sorted({(a.__name__, b.__name__) for a, b in set(registry.replaces) | set(r2.replaces)})))\n")
+        p = subprocess.run([common.PY, "-c", code], capture_output=True, text=True, env=dict(os.environ, PYTHONPATH=common.REPO), timeout=120)
+        if p.returncode != 0:
+            raise RuntimeError("cannot read the registered replace pairs: " + p.stderr[-400:])
+        _LIVE_REPLACES = tuple(tuple(x) for x in json.loads(p.stdout))
+    return _LIVE_REPLACES
 
 
 def make_registry(names=("IntString", "FloatString", "BooleanString")):
-    """A fresh StringSerializableRegistry holding the named classes in that order, with the package's replace pairs.
-    Built without reading the default registry, which other calls of the same process may have mutated."""
+    """A fresh StringSerializableRegistry holding the named classes in that order, with the replace pairs the package
+    registers (live_replaces).  Built without reading this process's default registry, which other calls may have mutated."""
     from json_to_models.dynamic_typing import StringSerializableRegistry
     cl = pseudo_classes()
     reg = StringSerializableRegistry()
     for n in names:
         reg.types.append(cl[n])
-    for a, b in DEFAULT_REPLACES:
+    for a, b in live_replaces():
         if a in names and b in names:
             reg.replaces.add((cl[a], cl[b]))
     return reg
